@@ -187,6 +187,7 @@ pub struct Shared {
     pub reads_after_failure: usize,
     pub flushes: usize,
     pub clock_advances: usize,
+    pub clock_advanced_ms: u64,
 }
 
 pub type SharedRef = Rc<RefCell<Shared>>;
@@ -243,7 +244,9 @@ impl BufRead for SimReader {
                 self.dstep += 1;
                 if d > 0 {
                     sim_clock_advance_ms(d);
-                    self.shared.borrow_mut().clock_advances += 1;
+                    let mut sh = self.shared.borrow_mut();
+                    sh.clock_advances += 1;
+                    sh.clock_advanced_ms += d;
                 }
             }
             if self.pos >= self.data.len() {
